@@ -282,10 +282,10 @@ Proof.
   - intros (j & Hi & Hj). eapply list_outputs_complete; [exact Hi|exact Hj|intros []].
 Qed.
 
-(* the CSS listing (one entry per compile result) can repeat a key *)
-Lemma css_inputs_keys_not_unique :
-  exists prefix nf nc pathOf segs, ~ NoDup (map fst (css_output_inputs prefix nf nc pathOf segs)).
+(* the CSS listing has one entry per file *)
+Lemma css_inputs_keys_unique prefix nf nc pathOf segs :
+  NoDup (map fst (css_output_inputs prefix nf nc pathOf segs)).
 Proof.
-  exists [80], 0, 0, (fun _ _ => []), [(Some 7, [97]); (None, [10]); (Some 7, [98; 99])].
-  cbn. intro H. inversion H as [|x l Hn _]. apply Hn. left; reflexivity.
+  unfold css_output_inputs, output_inputs. rewrite map_map. cbn [fst]. rewrite map_id.
+  apply meta_order_nodup.
 Qed.
